@@ -308,6 +308,8 @@ func RunWorkload(seed int64, cfg WorkCfg, onPhase func(string)) *History {
 		last := led.LastDoRet.Load()
 		h.StallIdle = led.InFlight() == 0 && (last == 0 || time.Since(time.Unix(0, last)) > 5*time.Second)
 	}
-	w.Server.Close()
+	// Close waits for outstanding handlers; a request that never gets an answer (the very thing C01 looks for)
+	// must not turn into a hung child, so only wait when every request was answered
+	w.Shutdown()
 	return h
 }
